@@ -28,7 +28,7 @@ struct Boom { int at; };
 
 // ---- process-wide evidence counters
 struct Glob {
-    std::atomic<long long> bodies{0}, msgs{0}, puts_while_running{0}, limit_reached{0}, limited_nodes{0}, waits_checked{0}, early_waits{0}, rounds{0},
+    std::atomic<long long> bodies{0}, msgs{0}, puts_while_running{0}, limit_reached{0}, limited_nodes{0}, waits_checked{0}, early_waits{0}, rounds{0}, lossy_drops{0},
         async_done{0}, ext_accepted{0}, ext_rejected{0}, cancels_fired{0}, throws_fired{0}, resets{0}, drained{0}, scen_overlap{0}, inline_bodies{0},
         lossy_dropped{0}, l3_direct_accepted{0};
     std::atomic<long long> max_live{0}, max_threads{0};
@@ -41,6 +41,7 @@ struct Probe {
     std::string name; int limit = 0;                 // 0 = unlimited
     int group = -1;                                  // probes of one group share the expectation (sum of their counts is compared)
     bool counts_live = true;
+    bool lossy = false;                              // the expectation is an upper bound only (a non-buffering sender drops what this node rejects)
     std::unique_ptr<std::atomic<uint32_t>[]> cnt;    // per message id
     std::vector<uint32_t> exp;                       // cumulative expected invocations per id (upper bound for group members)
     std::atomic<int> live{0}, maxlive{0};
